@@ -1,6 +1,6 @@
-(** Model of [chatPrompt] (server/prompt.go, with fixes/C19-system.patch applied: the system messages
-    are collected over the whole dropped prefix [msgs[:n]] after the scan) and of
-    [template.Template.Execute] / [collate] (template/template.go) for two concrete templates.
+(** Model of [chatPrompt] (server/prompt.go, with fixes/C19-system-at-stop.patch applied: the system
+    messages are collected over the whole dropped prefix [msgs[:n]] after the scan) and of
+    [template.Template.Execute] / [collate] (template/template.go) for four template families.
     Definitions only.
 
     A message is (role, content, images); an image is an opaque identifier (the harness turns it into
@@ -20,15 +20,16 @@ Definition s_img : str := [91;105;109;103;93].                           (* "[im
 Definition s_imgdash : str := [91;105;109;103;45].                       (* "[img-" *)
 Definition s_image : str := [60;124;105;109;97;103;101;124;62].          (* "<|image|>" *)
 Definition s_nn : str := [10;10].                                        (* "\n\n" *)
-Definition s_im_start : str := [60;124;105;109;95;115;116;97;114;116;124;62].   (* "<|im_start|>" *)
-Definition s_im_end : str := [60;124;105;109;95;101;110;100;124;62;10].         (* "<|im_end|>\n" *)
 
 Definition is_system (m : msg) : bool := eqb_str (role m) s_system.
 Definition is_nil {A} (l : list A) : bool := match l with [] => true | _ => false end.
 
-Inductive res (A : Type) : Type := Ok (a : A) | ErrTooManyImages.
+(** outcome of chatPrompt: a result, the error [errTooManyImages], or the run-time panic
+    ([msgs[-1:]], slice bounds out of range) of an empty conversation *)
+Inductive res (A : Type) : Type := Ok (a : A) | ErrTooManyImages | PanicEmpty.
 Arguments Ok {A} a.
 Arguments ErrTooManyImages {A}.
+Arguments PanicEmpty {A}.
 
 (** ** fmt.Sprintf("[img-%d]", id) *)
 Fixpoint itoa_aux (fuel : nat) (n : N) (acc : str) : str :=
@@ -113,28 +114,41 @@ Section ChatPrompt.
     end.
 
   Definition scan_all (msgs : list msg) : res nat :=
-    let last := (length msgs - 1)%nat in
-    if too_many msgs last then ErrTooManyImages else scan msgs last.
+    match msgs with
+    | [] => PanicEmpty
+    | _ => let last := (length msgs - 1)%nat in
+           if too_many msgs last then ErrTooManyImages else scan msgs last
+    end.
 
-  (** what is handed to the template at the end, for a retained-run start [n] *)
+  (** the retained run after the image loop, and what is handed to the template at the end *)
+  Definition retained (msgs : list msg) (n : nat) : list msg := rewrite_all mllama 0 (skipn n msgs).
+
   Definition final_list (msgs : list msg) (n : nat) : list msg :=
-    sysmsgs (firstn n msgs) ++ rewrite_all mllama 0 (skipn n msgs).
+    sysmsgs (firstn n msgs) ++ retained msgs n.
 
   Definition final_images (msgs : list msg) (n : nat) : list (N * N) :=
     number 0 (concat (map images (skipn n msgs))).
 
+  (** the caller's slice after the call (chatPrompt rewrites the contents of the retained messages in place) *)
+  Definition after_call (msgs : list msg) (n : nat) : list msg := firstn n msgs ++ retained msgs n.
+
   Definition chat_prompt (msgs : list msg) : res (str * list (N * N)) :=
     match scan_all msgs with
     | ErrTooManyImages => ErrTooManyImages
+    | PanicEmpty => PanicEmpty
     | Ok n => Ok (render (final_list msgs n), final_images msgs n)
     end.
 
   (** the code before the repair: [system] is what the last executed loop iteration computed, i.e. the
       system messages of [msgs[:n-1]] (kept for the refutation theorem only) *)
+  Definition unrepaired_list (msgs : list msg) (n : nat) : list msg :=
+    sysmsgs (firstn (pred n) msgs) ++ retained msgs n.
+
   Definition chat_prompt_unrepaired (msgs : list msg) : res (str * list (N * N)) :=
     match scan_all msgs with
     | ErrTooManyImages => ErrTooManyImages
-    | Ok n => Ok (render (sysmsgs (firstn (pred n) msgs) ++ rewrite_all mllama 0 (skipn n msgs)), final_images msgs n)
+    | PanicEmpty => PanicEmpty
+    | Ok n => Ok (render (unrepaired_list msgs n), final_images msgs n)
     end.
 End ChatPrompt.
 
@@ -147,9 +161,11 @@ Fixpoint count_fields_aux (inword : bool) (s : str) : N :=
               else (if inword then 0 else 1) + count_fields_aux true t
   end.
 Definition count_fields (s : str) : N := count_fields_aux false s.
-Definition count_len4 (s : str) : N := (N.of_nat (length s) + 3) / 4.
+(** one token per started group of [k] bytes *)
+Definition count_len (k : N) (s : str) : N := (N.of_nat (length s) + (k - 1)) / k.
 
-(** ** template/template.go collate: consecutive messages of one role are merged with "\n\n" *)
+(** ** template/template.go collate: consecutive messages of one role are merged with "\n\n";
+    the returned system string joins the contents of all system messages with "\n\n" *)
 Fixpoint collate (l : list msg) : list msg :=
   match l with
   | [] => []
@@ -161,35 +177,67 @@ Fixpoint collate (l : list msg) : list msg :=
               end
   end.
 
-(** ** style 1: a [.Messages] range template (template/chatml.gotmpl):
-    {{- range .Messages }}<|im_start|>{{ .Role }}\n{{ .Content }}<|im_end|>\n{{ end }}<|im_start|>assistant\n *)
-Definition chatml_msg (m : msg) : str := s_im_start ++ role m ++ [10] ++ content m ++ s_im_end.
-Definition render_chatml (l : list msg) : str :=
-  concat (map chatml_msg (collate l)) ++ s_im_start ++ s_assistant ++ [10].
+Fixpoint join_nn (l : list str) : str :=
+  match l with
+  | [] => []
+  | [x] => x
+  | x :: t => x ++ s_nn ++ join_nn t
+  end.
+Definition system_of (l : list msg) : str := join_nn (map content (sysmsgs l)).
 
-(** ** style 2: the legacy System/Prompt/Response template
-    {{ if .System }}<|im_start|>system\n{{ .System }}<|im_end|>\n{{ end }}{{ if .Prompt }}<|im_start|>user\n{{ .Prompt }}<|im_end|>\n{{ end }}<|im_start|>assistant\n{{ .Response }}<|im_end|>\n
-    executed by the legacy branch of Template.Execute; the last execution cuts everything after {{ .Response }} *)
-Definition legacy_exec (final : bool) (sy pr rs : str) : str :=
-  (if is_nil sy then [] else s_im_start ++ s_system ++ [10] ++ sy ++ s_im_end) ++
-  (if is_nil pr then [] else s_im_start ++ s_user ++ [10] ++ pr ++ s_im_end) ++
-  s_im_start ++ s_assistant ++ [10] ++ rs ++ (if final then [] else s_im_end).
+(** ** template families (literal texts are parameters)
+
+    [Range pre mid post fin]:
+      {{range .Messages}}pre{{.Role}}mid{{.Content}}post{{end}}fin
+    [Legacy respif a b c d e f] (no .Messages: executed by the legacy branch of Template.Execute):
+      {{if .System}}a{{.System}}b{{end}}{{if .Prompt}}c{{.Prompt}}d{{end}}e{{.Response}}f            (respif = false)
+      {{if .System}}a{{.System}}b{{end}}{{if .Prompt}}c{{.Prompt}}d{{end}}{{if .Response}}e{{.Response}}f{{end}}   (respif = true)
+    [SysRange a b c d e f g]:
+      {{if .System}}a{{.System}}b{{end}}{{range .Messages}}{{if eq .Role "user"}}c{{.Content}}d{{else if eq .Role "assistant"}}e{{.Content}}f{{end}}{{end}}g *)
+Inductive style : Type :=
+| Range (pre mid post fin : str)
+| Legacy (respif : bool) (a b c d e f : str)
+| SysRange (a b c d e f g : str).
+
+Definition range_msg (pre mid post : str) (m : msg) : str := pre ++ role m ++ mid ++ content m ++ post.
+Definition render_range (pre mid post fin : str) (l : list msg) : str :=
+  concat (map (range_msg pre mid post) (collate l)) ++ fin.
+
+(** one execution of a legacy template; the last execution cuts everything after {{ .Response }} *)
+Definition legacy_exec (respif : bool) (a b c d e f : str) (final : bool) (sy pr rs : str) : str :=
+  (if is_nil sy then [] else a ++ sy ++ b) ++
+  (if is_nil pr then [] else c ++ pr ++ d) ++
+  (if respif && is_nil rs then [] else e ++ rs ++ (if final then [] else f)).
 
 (** state of the loop [for _, m := range messages]: system, prompt, response, buffer *)
 Definition lstate : Type := (str * str * str * str)%type.
-Definition legacy_step (st : lstate) (m : msg) : lstate :=
+Definition legacy_step (ex : str -> str -> str -> str) (st : lstate) (m : msg) : lstate :=
   let '(sy, pr, rs, buf) := st in
   if eqb_str (role m) s_system then
     if negb (is_nil pr) || negb (is_nil rs)
-    then (content m, [], [], buf ++ legacy_exec false sy pr rs)
+    then (content m, [], [], buf ++ ex sy pr rs)
     else (content m, pr, rs, buf)
   else if eqb_str (role m) s_user then
     if negb (is_nil rs)
-    then ([], content m, [], buf ++ legacy_exec false sy pr rs)
+    then ([], content m, [], buf ++ ex sy pr rs)
     else (sy, content m, rs, buf)
   else if eqb_str (role m) s_assistant then (sy, pr, content m, buf)
   else st.
-Definition legacy_finish (st : lstate) : str :=
-  let '(sy, pr, rs, buf) := st in buf ++ legacy_exec true sy pr rs.
-Definition render_legacy (l : list msg) : str :=
-  legacy_finish (fold_left legacy_step (collate l) ([], [], [], [])).
+Definition render_legacy (respif : bool) (a b c d e f : str) (l : list msg) : str :=
+  let '(sy, pr, rs, buf) := fold_left (legacy_step (legacy_exec respif a b c d e f false)) (collate l) ([], [], [], []) in
+  buf ++ legacy_exec respif a b c d e f true sy pr rs.
+
+Definition sysrange_msg (c d e f : str) (m : msg) : str :=
+  if eqb_str (role m) s_user then c ++ content m ++ d
+  else if eqb_str (role m) s_assistant then e ++ content m ++ f
+  else [].
+Definition render_sysrange (a b c d e f g : str) (l : list msg) : str :=
+  (if is_nil (system_of l) then [] else a ++ system_of l ++ b) ++
+  concat (map (sysrange_msg c d e f) (collate l)) ++ g.
+
+Definition render_style (s : style) : list msg -> str :=
+  match s with
+  | Range pre mid post fin => render_range pre mid post fin
+  | Legacy respif a b c d e f => render_legacy respif a b c d e f
+  | SysRange a b c d e f g => render_sysrange a b c d e f g
+  end.
